@@ -252,9 +252,9 @@ func fieldAddrOf(addr ssa.Value) (string, string, *ssa.FieldAddr) {
 	}
 	tn := ""
 	if n, ok := pt.Elem().(*types.Named); ok {
-		tn = n.Obj().Name()
+		tn = typName(n)
 	}
-	return tn, st.Field(fa.Field).Name(), fa
+	return tn, fldName(st.Field(fa.Field)), fa
 }
 
 // StoresTo lists Store instructions whose address is &(<typ>).<field>.
